@@ -288,12 +288,16 @@ fn violation(property: &str, oracle: String, key: String, message: String) -> Vi
 struct WorldCache {
     recipe: Option<WorldRecipe>,
     states: Vec<ObservableInstanceState>,
+    /// per state: exposed meanLinkDelay of a P2P port differs from what the port works with
+    link_delay_issues: Vec<Option<String>>,
 }
 
 async fn run_c19(rig: &mut Rig, id: u64, sc: &C19Scenario, cache: &mut WorldCache) -> ScenarioResult {
     let mut res = ScenarioResult { id, ..Default::default() };
     if cache.recipe.as_ref() != Some(&sc.world) {
-        cache.states = states::simulate(&sc.world);
+        let (st, issues): (Vec<_>, Vec<_>) = states::simulate_checked(&sc.world).into_iter().unzip();
+        cache.states = st;
+        cache.link_delay_issues = issues;
         cache.recipe = Some(sc.world.clone());
         rig.probe(&format!("world_{}", sc.world.topo));
         *rig.summary.probes.entry("world_distinct_snapshots".into()).or_insert(0) += cache.states.len() as u64;
@@ -326,6 +330,13 @@ async fn run_c19(rig: &mut Rig, id: u64, sc: &C19Scenario, cache: &mut WorldCach
         }
     }
     let mut st = cache.states[sc.snapshot as usize % cache.states.len()].clone();
+    if let Some(msg) = &cache.link_delay_issues[sc.snapshot as usize % cache.states.len()] {
+        let zero = msg.contains("exposed as TimeInterval(0)");
+        res.violations.push(violation("C19", "C19.exposed_link_delay_differs_from_live".into(), format!("mechanism=p2p,exposed_zero={zero}"), msg.clone()));
+    }
+    if st.port_ds.iter().any(|p| matches!(p.delay_mechanism, statime::observability::port::DelayMechanism::P2P { mean_link_delay, .. } if mean_link_delay != Default::default())) {
+        rig.probe("p2p_port_with_measured_link_delay");
+    }
     states::apply_edits(&mut st, &sc.edits);
     res.state = states::state_hash(&st);
     rig.tx.send_replace(st.clone());
@@ -771,7 +782,7 @@ pub fn worker_main(batch_path: &str) -> i32 {
             return 2;
         }
         rig.absorb_counters();
-        let mut cache = WorldCache { recipe: None, states: Vec::new() };
+        let mut cache = WorldCache { recipe: None, states: Vec::new(), link_delay_issues: Vec::new() };
         for sc in &scenarios {
             let res = match &sc.body {
                 Body::C19(b) => run_c19(&mut rig, sc.id, b, &mut cache).await,
